@@ -9,6 +9,7 @@ import (
 	"os"
 	"sort"
 	"strings"
+	"time"
 
 	"github.com/mithrandie/csvq/lib/query"
 
@@ -19,8 +20,9 @@ import (
 
 func init() {
 	core.Register(&core.Check{
-		ID:    "C12",
-		Level: "exploration",
+		ID:             "C12",
+		ThoroughBudget: 45 * time.Minute,
+		Level:          "exploration",
 		Rule: "one scenario = one program run by the real lib/query on small tables with the split threshold lowered (exported GoroutineManager.MinimumRequiredPerCore = 2) so that 2-3 worker goroutines start at every parallel site; " +
 			"the goroutine-schedule explorer owns every scheduling point (one per record in every worker loop, every mutex acquisition, wait-group operations, goroutine start/exit) and every Go map iteration order; " +
 			"ALL schedules with at most S non-default scheduling decisions (of which at most P preemptions) and ALL map orders with at most D deviating sites are executed (S=P=D=1 quick; S=P=D=2 thorough). one case = one (scenario, choice vector); non-trivial = the execution started more than one task or met a map-order choice; " +
@@ -200,17 +202,23 @@ func sameMultiset(a, b string) bool {
 	return f(a) == f(b)
 }
 
+// c12Run: quick = every expression evaluation is a scheduling point, one non-default decision. thorough = that
+// pass, then a second pass with the coarser points (locks, wait groups, record boundaries) and two decisions.
 func c12Run(c *core.Ctx) {
 	gox.EvalPoints = true
 	defer func() { gox.EvalPoints = false }()
+	c12Pass(c, 1, 1, 1, "")
+	if c.Thorough() {
+		gox.EvalPoints = false
+		c12Pass(c, 2, 2, 2, " (coarse points, 2 decisions)")
+	}
+}
+
+func c12Pass(c *core.Ctx, maxP, maxD, maxS int, tag string) {
 	prev := query.GetGoroutineManager().MinimumRequiredPerCore
 	query.GetGoroutineManager().MinimumRequiredPerCore = 2
 	defer func() { query.GetGoroutineManager().MinimumRequiredPerCore = prev }()
 	dir := core.Scratch("c12")
-	maxP, maxD, maxS := 1, 1, 1
-	if c.Thorough() {
-		maxP, maxD, maxS = 2, 2, 2
-	}
 	k := 0
 	for _, sc := range goxScenarios() {
 		if sc.Thorough && !c.Thorough() {
@@ -266,7 +274,7 @@ func c12Run(c *core.Ctx) {
 		if c.Thorough() {
 			// the schedule tree of one scenario is spread over the workers: per-scenario totals are counters
 			c.Observe("scenarios", sc.Name)
-			c.Add("executions["+sc.Name+"]", int64(e.Executions))
+			c.Add("executions["+sc.Name+"]"+tag, int64(e.Executions))
 			for o := range outcomes {
 				c.Observe("outcomes["+sc.Name+"]", fmt.Sprintf("%x", h64s(o)))
 			}
